@@ -45,14 +45,26 @@ pub fn crash(depth: usize) -> Value {
     let after: Vec<String> = vec!["select k, v from t".into(), "select k, v from u".into(), "select a from w".into(), "insert into t values (100,1000)".into(), "select k, v from t".into()];
     let again: Vec<String> = vec!["select k, v from t".into(), "select k, v from u".into(), "select a from w".into()];
     let block = 64usize;
-    for (stmt, t1, u1, w1) in &cases {
+    // second scenario: t consists of 35 one-row RowSets, so that one DELETE writes a manifest transaction of 35 entries (a
+    // transaction must stay ONE Begin..End group however many entries it has)
+    let base_wide: Vec<String> = {
+        let mut b: Vec<String> = vec!["create table z(a int)".into(), "insert into z values (1)".into(), "create table t(k int primary key, v int)".into()];
+        for k in 1..=35 { b.push(format!("insert into t values ({k},{})", k * 10)); }
+        b.extend(["create table u(k int primary key, v int)".to_string(), "insert into u values (7,70)".to_string(), "drop table z".to_string()]);
+        b
+    };
+    let t0_wide: Rows = (1..=35).map(|k: i64| vec![k.to_string(), (k * 10).to_string()]).collect();
+    let cases_wide: Vec<(&str, Rows, Option<Rows>, bool)> = vec![("delete from t where v > 0", vec![], Some(u0.clone()), false)];
+    let scenarios: Vec<(&Vec<String>, &Rows, &Vec<(&str, Rows, Option<Rows>, bool)>, bool)> = vec![(&base, &t0, &cases, false), (&base_wide, &t0_wide, &cases_wide, true)];
+    for (base, t0, cases, wide) in scenarios {
+    for (stmt, t1, u1, w1) in cases {
         // learn the length of the record
         let (_, l0, l1) = match h::sql_session_crash(block, &base, stmt, usize::MAX, &[], &[]) { Ok(x) => x, Err(e) => return json!({"found": true, "tried": tried, "input": {"before": base, "interrupted": stmt}, "observed": format!("session failed: {e}")}) };
         let delta = (l1 - l0) as usize;
         // records with several entries (a DELETE over two RowSets, a DROP of a table with data) are cut at EVERY byte at every
         // depth: the positions between two entries are the ones where an unfinished transaction looks like a clean log
         let multi_entry = stmt.starts_with("delete from t where k >= 3") || stmt.starts_with("drop table") || *stmt == "@compact";
-        let stride = if multi_entry { 1 } else { match depth { 0 | 1 => (delta / 12).max(1), 2 => (delta / 60).max(1), _ => 1 } };
+        let stride = if wide { match depth { 0 | 1 => 37, 2 => 11, _ => 1 } } else if multi_entry { 1 } else { match depth { 0 | 1 => (delta / 12).max(1), 2 => (delta / 60).max(1), _ => 1 } };
         let mut cuts: Vec<usize> = (0..=delta).step_by(stride).collect();
         for c in [1usize, 2, delta.saturating_sub(1), delta.saturating_sub(2), delta] { if !cuts.contains(&c) && c <= delta { cuts.push(c); } }
         // every cut is recovered directly; cuts inside the first bytes of the record (its `"Begin"`), and every third cut of the
@@ -89,6 +101,7 @@ pub fn crash(depth: usize) -> Value {
             if b[1].clone().ok().map(sorted) != u_got { return fail(format!("after the second recovery u = {:?}, before it {u_got:?}", b[1])); }
             if b[2].is_ok() != w_got { return fail("table w appeared / disappeared across the second recovery".into()); }
         }
+    }
     }
     // DROP TABLE u, x: both tables go or none does (H37)
     {
